@@ -180,7 +180,7 @@ def nontrivial(t):
 
 def mc(chk: Check, invs, quick_maxlen=3, thorough_maxlen=4):
     if chk.quick:
-        cfg = MC_CFG.format(flag="TRUE", ks="{1, 2}", js="{1, 2}", durs="{2, 4}", maxlen=quick_maxlen, nqs="{0, 1}")
+        cfg = MC_CFG.format(flag="TRUE", ks="{1, 2}", js="{1, 2}", durs="{2, 4}", maxlen=quick_maxlen, nqs="{1}")
         chk.mc("MC_GooseEngine.tla", cfg + "".join(f"INVARIANT {i}\n" for i in invs), tag="engine",
                expect_actions=EXPECT_ACTIONS, timeout=1500,
                what="all interleavings of append/sample_next/sample_all, <=%d epochs, K in {1,2}, J in {1,2}" % quick_maxlen)
